@@ -28,7 +28,7 @@ PROPS = {
     "C02": dict(
         bin="c02", features=["polars"],
         quick=[("dbg", 1.0), ("rel", 1.0), ("miri", 0.7)],
-        thorough=[("dbg", 1.0), ("rel", 1.0), ("miri", 1.0), ("mirirel", 1.0), ("asan", 1.0)],
+        thorough=[("dbg", 1.0), ("rel", 1.0), ("miri", 1.0), ("mirirel", 1.0), ("asan", 0.5)],
         floors={"ok.rolling_apply": 100, "ok.rolling_apply_idx": 100, "ok.rolling2_apply": 100, "ok.rolling2_apply_idx": 100,
                 "ok.rolling_custom": 100, "ok.rolling2_custom": 50, "ok.rolling_custom_iter": 50, "okpath.To": 50, "okpath.Buf": 50,
                 "injected_panics_propagated": 50, "unspecified_removal_positions": 10, "spyout.buffers_verified": 50},
@@ -93,7 +93,7 @@ PROPS = {
     "C07": dict(
         bin="c07", features=["polars"],
         quick=[("dbg", 1.0), ("rel", 1.0)],
-        thorough=[("dbg", 1.0), ("rel", 1.0), ("miri", 1.0), ("asan", 1.0)],
+        thorough=[("dbg", 1.0), ("rel", 1.0), ("miri", 1.0), ("asan", 0.5)],
         floors={"cells_equal": 10000, "map_cells_equal": 1000, "accessors.deque": 20, "accessors.arrayview1(step-1)": 5,
                 "accessors.arrayview1(step3)": 5, "deque_wrapped": 10, "try_as_slice_offered": 10, "spyout.buffers_verified": 100},
         technique="runtime monitoring: differential matrix monitor (every cell vs the Vec->Vec reference cell, bit for bit) + accessor coherence checks; Miri/ASan on the non-polars cells",
@@ -121,8 +121,8 @@ PROPS = {
     ),
     "C09": dict(
         bin="c09", features=["polars"],
-        quick=[("dbg", 1.0), ("rel", 1.0), ("miri", 1.0), ("mirirel", 1.0)],
-        thorough=[("dbg", 1.0), ("rel", 1.0), ("miri", 1.0), ("mirirel", 1.0), ("asan", 1.0), ("vg", 0.2)],
+        quick=[("dbg", 1.0), ("rel", 1.0), ("miri", 1.0), ("mirirel", 1.0), ("asan", 0.5)],
+        thorough=[("dbg", 1.0), ("rel", 1.0), ("miri", 1.0), ("mirirel", 1.0), ("asan", 0.5), ("vg", 0.05)],
         floors={"subjects.shift": 50, "subjects.vshift": 50, "subjects.vdiff": 50, "subjects.vpartition": 50, "subjects.varg_partition": 50,
                 "subjects.vcut": 20, "subjects.winsorize": 5, "subjects.rolling_custom_iter": 10, "subjects.pipeline": 100,
                 "partial_probes_ok": 500, "collectors_ok": 500, "titer_ok": 20, "generators_ok": 20},
@@ -138,8 +138,8 @@ PROPS = {
     ),
     "C10": dict(
         bin="c10",
-        quick=[("dbg", 1.0), ("rel", 1.0), ("miri", 1.0), ("mirirel", 1.0)],
-        thorough=[("dbg", 1.0), ("rel", 1.0), ("miri", 1.0), ("mirirel", 1.0), ("asan", 1.0), ("vg", 0.3)],
+        quick=[("dbg", 1.0), ("rel", 1.0), ("miri", 0.7), ("mirirel", 0.7), ("asan", 0.3)],
+        thorough=[("dbg", 1.0), ("rel", 1.0), ("miri", 1.0), ("mirirel", 1.0), ("asan", 0.5), ("vg", 0.05)],
         floors={"spy.ugets": 10000, "spy.uslices": 10, "spyout.buffers_verified": 1000, "spyout.usets": 10000, "defined_results": 1000,
                 "cases.window0": 5, "cases.second_series_shorter": 5, "kernel_defined_results": 500, "string_driver_ok": 50,
                 "string_driver_injected_panics": 20},
@@ -166,7 +166,7 @@ PROPS = {
     "C12": dict(
         bin="c12",
         quick=[("dbg", 1.0), ("rel", 1.0), ("miri", 0.6)],
-        thorough=[("dbg", 1.0), ("rel", 1.0), ("miri", 1.0), ("asan", 1.0)],
+        thorough=[("dbg", 1.0), ("rel", 1.0), ("miri", 1.0), ("asan", 0.5)],
         floors={"quantile_ok": 500, "quantile_ok_integer_index": 100, "quantile_null_ok": 20, "quantile_err_ok": 20, "percentile_ok": 500,
                 "rank_ok": 200, "partition_ok": 500, "arg_partition_ok": 500, "single_valid_not_first": 3},
         rule="len 0..N x 10 null patterns (incl. 'the only valid element not in first position') x value classes with heavy ties + "
@@ -180,7 +180,7 @@ PROPS = {
     "C13": dict(
         bin="c13",
         quick=[("dbg", 1.0), ("rel", 1.0), ("miri", 0.6)],
-        thorough=[("dbg", 1.0), ("rel", 1.0), ("miri", 1.0), ("mirirel", 1.0), ("asan", 1.0)],
+        thorough=[("dbg", 1.0), ("rel", 1.0), ("miri", 1.0), ("mirirel", 1.0), ("asan", 0.5)],
         floors={"ok.shift": 500, "ok.vshift": 500, "ok.vdiff": 500, "ok.vpct_change": 500, "ok.ffill": 50, "ok.bfill": 50, "ok.fill": 30,
                 "ok.vclip": 100, "ok.vabs": 30, "clip_idempotent_ok": 50},
         rule="len 0..N x 10 null patterns + random len<=60 (with zero bases); lags -len-3..=len+3 and i32::MIN/MAX; fill null / 0 / "
@@ -258,7 +258,7 @@ PROPS = {
     "C19": dict(
         bin="c19",
         quick=[("dbg", 1.0), ("rel", 1.0), ("miri", 1.0)],
-        thorough=[("dbg", 1.0), ("rel", 1.0), ("miri", 1.0), ("mirirel", 1.0), ("asan", 1.0), ("vg", 1.0)],
+        thorough=[("dbg", 1.0), ("rel", 1.0), ("miri", 1.0), ("mirirel", 1.0), ("asan", 0.5), ("vg", 0.1)],
         floors={"range_int_ok.non_divisible_span": 50, "range_int_ok.empty_span": 50, "range_int_ok.divisible_span": 50,
                 "range_float_ok": 200, "linspace_ok": 50, "full_empty_ok": 10, "collect_ok": 100, "collect_opt_ok": 5,
                 "first_error_ok": 50, "write_ok": 10, "write_len_mismatch_err_ok": 10, "write_real_ok": 10, "checked_set_ok": 3},
